@@ -178,7 +178,8 @@ class VhdSuite(Suite):
 
     def generate(self, rng, tier):
         n = 1500 if tier == "thorough" else 150
-        return [gen_case(rng, tier) for _ in range(n)]
+        from harness.readers import with_twins
+        return with_twins([gen_case(rng, tier) for _ in range(n)], rng)
 
     def impl(self, case):
         from dissect.hypervisor.disk.vhd import VHD
